@@ -2,21 +2,33 @@ package props
 
 import (
 	"bytes"
+	"context"
+	"encoding/json"
 	"fmt"
 	"io"
 	"math/rand"
+	"os"
+	"os/exec"
 	"reflect"
+	"runtime/debug"
 	"sort"
+	"strconv"
 	"strings"
 	"sync"
+	"syscall"
+	"time"
 
 	"github.com/parquet-go/parquet-go"
 
 	"verifharness/core"
+	"verifharness/drv"
 	"verifharness/gen"
 )
 
-func init() { RegisterSub("C12", "schemas", RunC12) }
+func init() {
+	RegisterSub("C12", "schemas", RunC12)
+	workers["c12"] = c12Worker
+}
 
 // ---------------------------------------------------------------- schema model
 
@@ -748,13 +760,30 @@ func (c *c12Case) open() (*parquet.File, error) {
 	return parquet.OpenFile(bytes.NewReader(c.file), int64(len(c.file)))
 }
 
+// c12Guard runs library calls under recover: a panic becomes the error "PANIC: ..." (with the
+// innermost library frames), never the end of the harness.
 func c12Guard(f func() (*c12Out, error)) (out *c12Out, err error) {
 	defer func() {
 		if x := recover(); x != nil {
-			err = fmt.Errorf("PANIC: %v", x)
+			out = nil
+			err = fmt.Errorf("PANIC: %v [%s]", x, c12Frames(debug.Stack()))
 		}
 	}()
 	return f()
+}
+
+// the first few parquet-go frames of a stack trace
+func c12Frames(stack []byte) string {
+	var fr []string
+	for _, l := range strings.Split(string(stack), "\n") {
+		if strings.HasPrefix(l, "github.com/parquet-go/parquet-go") && len(fr) < 4 {
+			if i := strings.LastIndex(l, "("); i > 0 {
+				l = l[:i]
+			}
+			fr = append(fr, strings.TrimPrefix(l, "github.com/parquet-go/parquet-go"))
+		}
+	}
+	return strings.Join(fr, " < ")
 }
 
 func (c *c12Case) rowsOut(ctx *core.Ctx, rows []parquet.Row) (*c12Out, error) {
@@ -1051,25 +1080,200 @@ func c12AddedKey(p c12Path, c *c12Case, col int) string {
 
 // ---------------------------------------------------------------- the check
 
+const c12Rule = "random source schemas (required/optional/repeated leaves of 8 physical kinds, groups, LIST groups, depth <= 4, <= 10 leaves, field order kept by an ordered group node) x random targets (delete + permute at any depth, then one of: nothing / add optional, required, repeated leaves and groups incl. inside repeated groups and lists / required->optional / optional->required / an incompatible change) x random rows shredded by the harness reference shredder x 7 library paths (Convert+conversion.Convert, ConvertRowGroup rows and column chunks, NewReader(schema), CopyRows into a writer, WriteRowGroup of the converted row group, MergeRowGroups with a schema) + Read[T] pairs + sorted sources (2-3 declared sorting columns, asc/desc, buffers and files) x targets dropping every subset of the sorting columns (declared order of the converted row group and of the merge must be a true order of the rows); expected = reference shred of the projected value against the target schema; L2: conversion.Convert vs the Lean mirror convertRow and the harness projection vs the Lean spec; every library call runs in a worker subprocess (address-space limit, recover, timeout): a panic, fatal error or hang is an L1 failure of that case; non-trivial = the target differs from the source and a shared optional/repeated column holds both nulls and values"
+
+// RunC12 is the parent: it never calls the library itself. The cases run in worker
+// subprocesses (`pqcheck -worker c12 ...`); when a worker dies (fatal error: out of memory,
+// stack overflow, a panic on a goroutine of the library) or hangs, the case it was executing
+// becomes an L1 failure and a new worker continues behind it.
 func RunC12(ctx *core.Ctx) {
-	ctx.SetRule("random source schemas (required/optional/repeated leaves of 8 physical kinds, groups, LIST groups, depth <= 4, <= 10 leaves, field order kept by an ordered group node) x random targets (delete + permute at any depth, then one of: nothing / add optional, required, repeated leaves and groups incl. inside repeated groups and lists / required->optional / optional->required / an incompatible change) x random rows shredded by the harness reference shredder x 7 library paths (Convert+conversion.Convert, ConvertRowGroup rows and column chunks, NewReader(schema), CopyRows into a writer, WriteRowGroup of the converted row group, MergeRowGroups with a schema) + Read[T] pairs; expected = reference shred of the projected value against the target schema; L2: conversion.Convert vs the Lean mirror convertRow and the harness projection vs the Lean spec; non-trivial = the target differs from the source and a shared optional/repeated column holds both nulls and values")
+	ctx.SetRule(c12Rule)
 	npairs := ctx.Scale(2000, 50000)
-	workers := 16
+	shards := 16
 	var wg sync.WaitGroup
-	for w := 0; w < workers; w++ {
+	for w := 0; w < shards; w++ {
 		wg.Add(1)
 		go func(w int) {
 			defer wg.Done()
-			d := ctx.Driver()
-			r := ctx.Rand(fmt.Sprintf("c12/%d", w))
-			g := &c12Gen{r: r}
-			for k := 0; k < npairs/workers; k++ {
-				c12RandomCase(ctx, d, g, w == 0 && k < 3)
-			}
+			c12RunShard(ctx, "random", w, npairs/shards)
 		}(w)
 	}
+	wg.Add(2)
+	go func() { defer wg.Done(); c12RunShard(ctx, "typed", 0, ctx.Scale(20, 200)) }()
+	go func() { defer wg.Done(); c12RunShard(ctx, "sorted", 0, ctx.Scale(60, 1500)) }()
 	wg.Wait()
-	c12Typed(ctx)
+}
+
+// what the worker is doing right now (written before every library call)
+type c12At struct {
+	K      int    `json:"k"`
+	Path   string `json:"path"`
+	Mode   string `json:"mode"`
+	Detail any    `json:"detail"`
+}
+
+func c12RunShard(ctx *core.Ctx, kind string, shard, n int) {
+	exe, err := os.Executable()
+	if err != nil {
+		ctx.Fail("L2", "harness-worker-unavailable", err.Error(), nil)
+		return
+	}
+	dir, err := os.MkdirTemp("", "c12-*")
+	if err != nil {
+		ctx.Fail("L2", "harness-worker-unavailable", err.Error(), nil)
+		return
+	}
+	defer os.RemoveAll(dir)
+	start, restarts, serial := 0, 0, 0
+	for start < n {
+		serial++
+		out := fmt.Sprintf("%s/out-%d.json", dir, serial)
+		at := fmt.Sprintf("%s/at-%d.json", dir, serial)
+		limit := time.Duration(ctx.Scale(180, 1200)) * time.Second
+		cctx, cancel := context.WithTimeout(context.Background(), limit)
+		cmd := exec.CommandContext(cctx, exe, "-worker", "c12", kind, fmt.Sprint(shard), fmt.Sprint(start), fmt.Sprint(n),
+			fmt.Sprint(ctx.Seed), ctx.Tier, ctx.DriverPath, out, at)
+		cmd.Env = append(os.Environ(), "GOTRACEBACK=single", "GOMAXPROCS=2")
+		var stderr bytes.Buffer
+		cmd.Stderr = &stderr
+		cmd.Stdout = &stderr
+		werr := cmd.Run()
+		timedOut := cctx.Err() != nil
+		cancel()
+		c12Merge(ctx, out, fmt.Sprintf("%s-%d-%d", kind, shard, serial))
+		if werr == nil {
+			return
+		}
+		// the worker died: attribute it to the library call it was in
+		var cur c12At
+		cur.K = -1
+		if blob, err := os.ReadFile(at); err == nil {
+			json.Unmarshal(blob, &cur)
+		}
+		msg := stderr.String()
+		first := msg
+		if i := strings.Index(first, "\n"); i >= 0 {
+			first = first[:i]
+		}
+		if timedOut {
+			first = "no answer within " + limit.String() + " (killed)"
+		}
+		if len(msg) > 3000 {
+			msg = msg[:3000]
+		}
+		if cur.K < 0 {
+			ctx.Fail("L2", "harness-worker-died-outside-a-case", "c12 worker ("+kind+") died before its first case: "+first, map[string]any{"stderr": msg})
+			return
+		}
+		ctx.Fail("L1", "path-panic:"+cur.Path+":"+cur.Mode,
+			"the library takes the process down (or hangs) on this case: "+first,
+			map[string]any{"kind": kind, "shard": shard, "case": cur.K, "case_detail": cur.Detail, "worker_exit": werr.Error(), "stderr": msg})
+		start = cur.K + 1
+		restarts++
+		if restarts > 40 {
+			ctx.Fail("L1", "path-panic:worker-restarts-exhausted:"+kind, fmt.Sprintf("more than 40 cases of shard %d kill the worker; %d cases not run", shard, n-start), nil)
+			return
+		}
+	}
+}
+
+// c12Merge folds a worker's result file into the parent's context.
+func c12Merge(ctx *core.Ctx, path, tag string) {
+	blob, err := os.ReadFile(path)
+	if err != nil {
+		return
+	}
+	var r core.Result
+	if json.Unmarshal(blob, &r) != nil {
+		return
+	}
+	for i := int64(0); i < r.Evaluations; i++ {
+		ctx.Case(fmt.Sprintf("%s/%d", tag, i), i < r.DistinctNontrivial)
+	}
+	for name, m := range r.Histograms {
+		for k, v := range m {
+			ctx.HistN(name, k, v)
+		}
+	}
+	for _, f := range r.Failures {
+		ctx.Fail(f.Layer, f.Key, f.What, f.Detail)
+	}
+	for _, o := range r.Observations {
+		ctx.Observe(o.Key, o.What, o.Detail)
+	}
+	for _, sm := range r.Samples {
+		ctx.Sample(sm)
+	}
+	ctx.HistN("driver-requests-in-workers", "convert.run", r.DriverRequests)
+}
+
+// c12Worker: `-worker c12 <kind> <shard> <start> <n> <seed> <tier> <driver> <out> <at>` runs the
+// cases start..n-1 of one shard; after every case the cumulative result is written to <out>,
+// before every library call the current position to <at>.
+func c12Worker(args []string) int {
+	if len(args) < 9 {
+		fmt.Fprintln(os.Stderr, "usage: -worker c12 <kind> <shard> <start> <n> <seed> <tier> <driver> <out> <at>")
+		return 2
+	}
+	lim := uint64(4096) << 20
+	syscall.Setrlimit(syscall.RLIMIT_AS, &syscall.Rlimit{Cur: lim, Max: lim})
+	debug.SetMemoryLimit(int64(lim / 2))
+	kind := args[0]
+	shard, _ := strconv.Atoi(args[1])
+	start, _ := strconv.Atoi(args[2])
+	n, _ := strconv.Atoi(args[3])
+	seed, _ := strconv.ParseInt(args[4], 10, 64)
+	ctx := core.NewCtx()
+	ctx.Prop, ctx.Seed, ctx.Tier, ctx.DriverPath = "C12", seed, args[5], args[6]
+	out, atPath := args[7], args[8]
+	var d *drv.Driver
+	if kind == "random" {
+		var err error
+		if d, err = drv.Start(ctx.DriverPath); err != nil {
+			ctx.Fail("L2", "driver-unavailable", "pqdriver cannot be started: "+err.Error(), nil)
+			d = nil
+		}
+	}
+	for k := start; k < n; k++ {
+		at := func(path, mode string, detail any) {
+			blob, _ := json.Marshal(c12At{K: k, Path: path, Mode: mode, Detail: detail})
+			os.WriteFile(atPath, blob, 0o644)
+		}
+		func() {
+			defer func() {
+				if x := recover(); x != nil {
+					ctx.Fail("L1", "path-panic:harness-case:"+kind, fmt.Sprintf("panic outside the guarded library calls: %v", x),
+						map[string]any{"kind": kind, "shard": shard, "case": k, "stack": string(debug.Stack())})
+				}
+			}()
+			r := ctx.Rand(fmt.Sprintf("c12/%s/%d/%d", kind, shard, k))
+			switch kind {
+			case "random":
+				var ask interface {
+					AskMany([]string) ([]string, error)
+				}
+				if d != nil {
+					ask = d
+				}
+				c12RandomCase(ctx, ask, &c12Gen{r: r}, shard == 0 && k < 3, at)
+			case "typed":
+				c12TypedCase(ctx, r, at)
+			case "sorted":
+				c12SortedCase(ctx, r, at)
+			}
+		}()
+		if d != nil {
+			ctx.HistN("driver-requests", "convert.run", 0)
+		}
+		if err := ctx.Finish(out); err != nil {
+			fmt.Fprintln(os.Stderr, "cannot write result:", err)
+			return 2
+		}
+	}
+	if d != nil {
+		d.Close()
+	}
+	return 0
 }
 
 func c12Mode(r *rand.Rand) string {
@@ -1088,7 +1292,7 @@ func c12Mode(r *rand.Rand) string {
 
 func c12RandomCase(ctx *core.Ctx, d interface {
 	AskMany([]string) ([]string, error)
-}, g *c12Gen, sample bool) {
+}, g *c12Gen, sample bool, at func(path, mode string, detail any)) {
 	r := g.r
 	g.next = 0
 	src := g.schema()
@@ -1166,12 +1370,16 @@ func c12RandomCase(ctx *core.Ctx, d interface {
 
 	// write the source file
 	{
+		at("source-write", tg.mode, detail(nil))
 		var buf bytes.Buffer
-		w := parquet.NewWriter(&buf, c.srcS)
-		_, err := w.WriteRows(append([]parquet.Row(nil), c.rows...))
-		if err == nil {
-			err = w.Close()
-		}
+		_, err := c12Guard(func() (*c12Out, error) {
+			w := parquet.NewWriter(&buf, c.srcS)
+			_, err := w.WriteRows(append([]parquet.Row(nil), c.rows...))
+			if err == nil {
+				err = w.Close()
+			}
+			return nil, err
+		})
 		if err != nil {
 			ctx.Fail("L1", "source-write-error "+errClass(err), "cannot write the source file: "+err.Error(), detail(nil))
 			return
@@ -1240,6 +1448,7 @@ func c12RandomCase(ctx *core.Ctx, d interface {
 	var convRows []parquet.Row
 	addedKey := "" // key of the added-column failure seen on the convert-rows path, if any
 	for _, p := range c12Paths {
+		at(p.name, tg.mode, detail(nil))
 		out, err := c12Guard(func() (*c12Out, error) { return p.run(ctx, c) })
 		ctx.Hist("path", p.name)
 		if tg.mode == "incompat" {
@@ -1275,6 +1484,9 @@ func c12RandomCase(ctx *core.Ctx, d interface {
 					"path "+p.name+": the zero value synthesised for a required FIXED_LEN_BYTE_ARRAY column has no bytes and the writer rejects it: "+err.Error(), detail(map[string]any{"path": p.name}))
 			case (tg.mode == "add" || tg.mode == "incompat") && addedKey != "":
 				ctx.Fail("L1", addedKey, "path "+p.name+" fails on the rows whose added column carries borrowed levels: "+err.Error(), detail(map[string]any{"path": p.name}))
+			case strings.HasPrefix(err.Error(), "PANIC"):
+				ctx.Fail("L1", "path-panic:"+p.name+":"+tg.mode,
+					"the path panics on a compatible target schema: "+err.Error(), detail(map[string]any{"path": p.name}))
 			default:
 				ctx.Fail("L1", "path-error:"+p.name+":"+tg.mode+":"+errClass(err),
 					"a compatible target schema is rejected or the path fails: "+err.Error(), detail(map[string]any{"path": p.name}))
@@ -1495,26 +1707,27 @@ type c12B4 struct {
 	N3 []c12N3 `parquet:"n3"`
 }
 
-func c12ReadAs[A, B any](ctx *core.Ctx, name, key string, rows []A, want []B) {
+func c12ReadAs[A, B any](ctx *core.Ctx, at func(path, mode string, detail any), name, key string, rows []A, want []B) {
+	at("read-typed:"+name, "typed", fmt.Sprintf("%+v", rows))
 	var buf bytes.Buffer
-	if err := parquet.Write(&buf, rows); err != nil {
+	if _, err := c12Guard(func() (*c12Out, error) { return nil, parquet.Write(&buf, rows) }); err != nil {
 		ctx.Fail("L1", "typed-write-error:"+name, err.Error(), nil)
 		return
 	}
 	var got []B
-	var err error
-	func() {
-		defer func() {
-			if x := recover(); x != nil {
-				err = fmt.Errorf("PANIC: %v", x)
-			}
-		}()
+	_, err := c12Guard(func() (*c12Out, error) {
+		var err error
 		got, err = parquet.Read[B](bytes.NewReader(buf.Bytes()), int64(buf.Len()))
-	}()
+		return nil, err
+	})
 	ctx.Case(name+fmt.Sprint(rows), true)
 	ctx.Hist("path", "read-typed:"+name)
 	if err != nil {
-		ctx.Fail("L1", "path-error:read-typed:"+name+":"+errClass(err), err.Error(), map[string]any{"rows": fmt.Sprintf("%+v", rows)})
+		k := "path-error:read-typed:" + name + ":" + errClass(err)
+		if strings.HasPrefix(err.Error(), "PANIC") {
+			k = "path-panic:read-typed:" + name
+		}
+		ctx.Fail("L1", k, err.Error(), map[string]any{"rows": fmt.Sprintf("%+v", rows)})
 		return
 	}
 	if !c12DeepEq(reflect.ValueOf(got), reflect.ValueOf(want)) {
@@ -1560,12 +1773,11 @@ func c12Dump(v reflect.Value) string {
 	return fmt.Sprintf("%#v", v.Interface())
 }
 
-func c12Typed(ctx *core.Ctx) {
-	r := ctx.Rand("c12/typed")
+func c12TypedCase(ctx *core.Ctx, r *rand.Rand, at func(path, mode string, detail any)) {
 	p32 := func(x int32) *int32 { return &x }
 	pf := func(x float64) *float64 { return &x }
 	ps := func(x string) *string { return &x }
-	for k := 0; k < ctx.Scale(20, 200); k++ {
+	{
 		n := 1 + r.Intn(20)
 		var a1 []c12A1
 		var b1 []c12B1
@@ -1609,9 +1821,400 @@ func c12Typed(ctx *core.Ctx) {
 			a4 = append(a4, z)
 			b4 = append(b4, c12B4{F1: z.F1})
 		}
-		c12ReadAs(ctx, "drop-permute-flat", "", a1, b1)
-		c12ReadAs(ctx, "drop-permute-in-repeated-group", "", a2, b2)
-		c12ReadAs(ctx, "add-optional-and-required-at-root", "", a3, b3)
-		c12ReadAs(ctx, "add-repeated-group-next-to-optional", "added-column-borrows-sibling-levels:repeated-next-to-optional-sibling", a4, b4)
+		c12ReadAs(ctx, at, "drop-permute-flat", "", a1, b1)
+		c12ReadAs(ctx, at, "drop-permute-in-repeated-group", "", a2, b2)
+		c12ReadAs(ctx, at, "add-optional-and-required-at-root", "", a3, b3)
+		c12ReadAs(ctx, at, "add-repeated-group-next-to-optional", "added-column-borrows-sibling-levels:repeated-next-to-optional-sibling", a4, b4)
 	}
+}
+
+// ---------------------------------------------------------------- sorted sources
+
+// One case: a source with 2-3 declared sorting columns (required int32/int64/string leaves,
+// ascending or descending), a few payload columns, rows really sorted that way, held in a Buffer
+// or in a file; for EVERY subset of the sorting columns a target that drops that subset (and maybe
+// payload columns, fields permuted):
+//   - ConvertRowGroup(...).SortingColumns() must be a true order of the converted rows (the
+//     longest prefix of the source's sorting columns that survives is what is expected);
+//   - MergeRowGroups of two converted groups with that schema yields all rows, ordered by what the
+//     merged row group declares.
+//
+// Sorting columns are required leaves so that null ordering (C09/C10) stays out of this check.
+func c12SortedCase(ctx *core.Ctx, r *rand.Rand, at func(path, mode string, detail any)) {
+	nsort := 2 + r.Intn(2)
+	kinds := []int{1, 2, 5} // int32 int64 string
+	type scol struct {
+		name string
+		kind int
+		desc bool
+	}
+	var sc []scol
+	root := &c12Node{kind: -1}
+	for i := 0; i < nsort; i++ {
+		c := scol{name: fmt.Sprintf("s%c", "abc"[i]), kind: kinds[r.Intn(3)], desc: r.Intn(2) == 0}
+		sc = append(sc, c)
+		root.fields = append(root.fields, &c12Node{name: c.name, kind: c.kind})
+	}
+	npay := 1 + r.Intn(3)
+	for i := 0; i < npay; i++ {
+		root.fields = append(root.fields, &c12Node{name: fmt.Sprintf("p%d", i), rep: r.Intn(3), kind: r.Intn(len(c12Kinds))})
+	}
+	r.Shuffle(len(root.fields), func(i, j int) { root.fields[i], root.fields[j] = root.fields[j], root.fields[i] })
+	srcS := parquet.NewSchema("src", root.build())
+	var sorting []parquet.SortingColumn
+	var order []string
+	for _, c := range sc {
+		if c.desc {
+			sorting = append(sorting, parquet.Descending(c.name))
+			order = append(order, c.name+" desc")
+		} else {
+			sorting = append(sorting, parquet.Ascending(c.name))
+			order = append(order, c.name+" asc")
+		}
+	}
+	small := []func() parquet.Value{
+		1: func() parquet.Value { return parquet.ValueOf(int32(r.Intn(3) - 1)) },
+		2: func() parquet.Value { return parquet.ValueOf(int64(r.Intn(3)) * (1 << 40)) },
+		5: func() parquet.Value { return parquet.ValueOf([]string{"", "a", "b"}[r.Intn(3)]) },
+	}
+	cmpVal := func(kind int, a, b parquet.Value) int {
+		switch kind {
+		case 1:
+			return c12Cmp(int64(a.Int32()), int64(b.Int32()))
+		case 2:
+			return c12Cmp(a.Int64(), b.Int64())
+		}
+		return bytes.Compare(a.ByteArray(), b.ByteArray())
+	}
+	// two sorted inputs
+	genRows := func(n int) []*c12Val {
+		var vs []*c12Val
+		for i := 0; i < n; i++ {
+			v := &c12Val{k: 'S'}
+			for _, f := range root.fields {
+				if strings.HasPrefix(f.name, "s") {
+					v.kids = append(v.kids, &c12Val{k: 'P', p: small[f.kind]()})
+				} else {
+					v.kids = append(v.kids, c12GenField(r, f, 0.3, 2))
+				}
+			}
+			vs = append(vs, v)
+		}
+		key := func(v *c12Val, name string) parquet.Value {
+			for i, f := range root.fields {
+				if f.name == name {
+					return v.kids[i].p
+				}
+			}
+			panic("no column " + name)
+		}
+		sort.SliceStable(vs, func(i, j int) bool {
+			for _, c := range sc {
+				d := cmpVal(c.kind, key(vs[i], c.name), key(vs[j], c.name))
+				if c.desc {
+					d = -d
+				}
+				if d != 0 {
+					return d < 0
+				}
+			}
+			return false
+		})
+		return vs
+	}
+	inputs := [][]*c12Val{genRows(1 + r.Intn(25)), genRows(1 + r.Intn(25))}
+	inFile := r.Intn(2) == 0
+	holder := "buffer"
+	if inFile {
+		holder = "file"
+	}
+	describe := func(tgt *c12Node, extra map[string]any) map[string]any {
+		m := map[string]any{"source": root.text(), "source_order": order, "held_in": holder, "target": tgt.text(),
+			"rows": []int{len(inputs[0]), len(inputs[1])}}
+		for k, v := range extra {
+			m[k] = v
+		}
+		return m
+	}
+	var groups []parquet.RowGroup
+	at("sorted-source", "sorted", describe(root, nil))
+	_, err := c12Guard(func() (*c12Out, error) {
+		for _, vs := range inputs {
+			var rows []parquet.Row
+			for _, v := range vs {
+				rows = append(rows, c12RowOf(c12ShredRow(root, v)))
+			}
+			if !inFile {
+				b := parquet.NewBuffer(srcS, parquet.SortingRowGroupConfig(parquet.SortingColumns(sorting...)))
+				if _, err := b.WriteRows(rows); err != nil {
+					return nil, err
+				}
+				groups = append(groups, b)
+				continue
+			}
+			var buf bytes.Buffer
+			w := parquet.NewWriter(&buf, srcS, parquet.SortingWriterConfig(parquet.SortingColumns(sorting...)))
+			if _, err := w.WriteRows(rows); err != nil {
+				return nil, err
+			}
+			if err := w.Close(); err != nil {
+				return nil, err
+			}
+			f, err := parquet.OpenFile(bytes.NewReader(buf.Bytes()), int64(buf.Len()))
+			if err != nil {
+				return nil, err
+			}
+			if len(f.RowGroups()) != 1 {
+				return nil, fmt.Errorf("%d row groups", len(f.RowGroups()))
+			}
+			groups = append(groups, f.RowGroups()[0])
+		}
+		return nil, nil
+	})
+	if err != nil {
+		ctx.Fail("L1", "sorted-source-error "+errClass(err), err.Error(), describe(root, nil))
+		return
+	}
+	if got := c12OrderText(groups[0].SortingColumns()); got != strings.Join(order, ", ") {
+		ctx.Fail("L1", "sorted-source-declares-other-order", "the source row group does not declare the configured sorting columns: "+got, describe(root, nil))
+		return
+	}
+	for mask := 0; mask < 1<<nsort; mask++ {
+		tgt := &c12Node{kind: -1}
+		var dropped, want []string
+		alive := true
+		for _, f := range root.fields {
+			si := -1
+			for i, c := range sc {
+				if c.name == f.name {
+					si = i
+				}
+			}
+			if si >= 0 && mask&(1<<si) != 0 {
+				continue
+			}
+			if si < 0 && len(root.fields) > 3 && r.Intn(4) == 0 {
+				continue // drop a payload column too
+			}
+			tgt.fields = append(tgt.fields, f.clone())
+		}
+		for i, c := range sc {
+			if mask&(1<<i) != 0 {
+				dropped = append(dropped, c.name)
+				alive = false
+			} else if alive {
+				want = append(want, order[i])
+			}
+		}
+		if len(tgt.fields) == 0 {
+			continue
+		}
+		r.Shuffle(len(tgt.fields), func(i, j int) { tgt.fields[i], tgt.fields[j] = tgt.fields[j], tgt.fields[i] })
+		tgtS := parquet.NewSchema("tgt", tgt.build())
+		tleaves := tgt.leaves()
+		shape := "dropped=" + strings.Join(dropped, "+")
+		if len(dropped) == 0 {
+			shape = "dropped=none"
+		}
+		det := describe(tgt, map[string]any{"dropped_sorting_columns": dropped, "expected_order": want})
+		ctx.Case(fmt.Sprint(det)+fmt.Sprint(inputs[0][0].kids[0].p), len(dropped) > 0 && len(dropped) < nsort)
+		ctx.Hist("sorted-target", fmt.Sprintf("%d of %d sorting columns dropped", len(dropped), nsort))
+		ctx.Hist("path", "sorted-convert-rowgroup")
+		// ordered by the declared columns?
+		ordered := func(rows []parquet.Row, decl []parquet.SortingColumn) (bool, string) {
+			type dc struct {
+				col, kind int
+				desc      bool
+			}
+			var dcs []dc
+			for _, sc := range decl {
+				found := false
+				for ci, lf := range tleaves {
+					if len(lf.path) == 1 && len(sc.Path()) == 1 && lf.path[0] == sc.Path()[0] {
+						dcs = append(dcs, dc{ci, lf.node.kind, sc.Descending()})
+						found = true
+					}
+				}
+				if !found {
+					return false, "declared sorting column " + strings.Join(sc.Path(), ".") + " is not a column of the target"
+				}
+			}
+			val := func(row parquet.Row, col int) (parquet.Value, bool) {
+				for _, v := range row {
+					if v.Column() == col {
+						return v, true
+					}
+				}
+				return parquet.Value{}, false
+			}
+			for i := 1; i < len(rows); i++ {
+				for _, d := range dcs {
+					a, ok1 := val(rows[i-1], d.col)
+					b, ok2 := val(rows[i], d.col)
+					if !ok1 || !ok2 {
+						return false, fmt.Sprintf("row %d has no value for a sorting column", i)
+					}
+					c := cmpVal(d.kind, a, b)
+					if d.desc {
+						c = -c
+					}
+					if c < 0 {
+						break
+					}
+					if c > 0 {
+						return false, fmt.Sprintf("rows %d and %d are out of order on %s: %v then %v", i-1, i, strings.Join(tleaves[d.col].path, "."), a, b)
+					}
+				}
+			}
+			return true, ""
+		}
+		var converted []parquet.RowGroup
+		okAll := true
+		for gi, rg := range groups {
+			at("sorted-convert-rowgroup", "sorted:"+shape, det)
+			var decl []parquet.SortingColumn
+			out, err := c12Guard(func() (*c12Out, error) {
+				conv, err := parquet.Convert(tgtS, rg.Schema())
+				if err != nil {
+					return nil, err
+				}
+				crg := parquet.ConvertRowGroup(rg, conv)
+				converted = append(converted, crg)
+				decl = crg.SortingColumns()
+				rr := crg.Rows()
+				defer rr.Close()
+				rows, err := c12ReadRows(rr, 7)
+				return &c12Out{raw: rows, nrows: len(rows)}, err
+			})
+			if err != nil {
+				k := "path-error:sorted-convert-rowgroup:" + errClass(err)
+				if strings.HasPrefix(err.Error(), "PANIC") {
+					k = "path-panic:sorted-convert-rowgroup:sorted"
+				}
+				ctx.Fail("L1", k, err.Error(), det)
+				okAll = false
+				break
+			}
+			if out.nrows != len(inputs[gi]) {
+				ctx.Fail("L1", "row-count-or-structure:sorted-convert-rowgroup", fmt.Sprintf("%d rows for %d", out.nrows, len(inputs[gi])), det)
+			}
+			if ok, why := ordered(out.raw, decl); !ok {
+				ctx.Fail("L1", "converted-rowgroup-declares-false-order:"+c12DropShape(mask, nsort),
+					fmt.Sprintf("ConvertRowGroup(...).SortingColumns() = [%s] is not an order of the converted rows: %s", c12OrderText(decl), why),
+					describe(tgt, map[string]any{"dropped_sorting_columns": dropped, "expected_order": want, "declared": c12OrderText(decl)}))
+			} else if got := c12OrderText(decl); got != strings.Join(want, ", ") {
+				ctx.Observe("converted-rowgroup-declares-shorter-order", "a true but shorter order than the surviving prefix of the source's sorting columns is declared: ["+got+"]", det)
+			}
+			ctx.Hist("converted-declared-order-length", fmt.Sprint(len(decl)))
+		}
+		if !okAll || len(converted) != 2 {
+			continue
+		}
+		// merge the converted groups
+		ctx.Hist("path", "sorted-merge-converted")
+		at("sorted-merge-converted", "sorted:"+shape, det)
+		var decl []parquet.SortingColumn
+		out, err := c12Guard(func() (*c12Out, error) {
+			m, err := parquet.MergeRowGroups(converted, tgtS)
+			if err != nil {
+				return nil, err
+			}
+			decl = m.SortingColumns()
+			rr := m.Rows()
+			defer rr.Close()
+			rows, err := c12ReadRows(rr, 5)
+			return &c12Out{raw: rows, nrows: len(rows)}, err
+		})
+		if err != nil {
+			k := "path-error:sorted-merge-converted:" + errClass(err)
+			if strings.HasPrefix(err.Error(), "PANIC") {
+				k = "path-panic:sorted-merge-converted:sorted"
+			}
+			ctx.Fail("L1", k, err.Error(), det)
+			continue
+		}
+		ctx.Hist("merge-declared-order-length", fmt.Sprint(len(decl)))
+		if ok, why := ordered(out.raw, decl); !ok {
+			ctx.Fail("L1", "merge-of-converted-rowgroups-not-in-declared-order:"+c12DropShape(mask, nsort),
+				fmt.Sprintf("MergeRowGroups of the converted row groups declares [%s] but: %s", c12OrderText(decl), why),
+				describe(tgt, map[string]any{"dropped_sorting_columns": dropped, "expected_order": want, "declared": c12OrderText(decl)}))
+			continue
+		}
+		// all rows, each as often as in the inputs (multiset of projected rows)
+		count := map[string]int{}
+		for _, vs := range inputs {
+			for _, v := range vs {
+				count[fmt.Sprintf("%+v", c12RowOf(c12ShredRow(tgt, c12ProjectBody(root, tgt, v))))]++
+			}
+		}
+		bad := ""
+		if len(tgt.fields) > 0 {
+			for _, row := range out.raw {
+				var canon parquet.Row
+				for _, v := range row {
+					x := v.Clone()
+					if v.DefinitionLevel() < tleaves[v.Column()].maxDef {
+						x = parquet.NullValue().Level(v.RepetitionLevel(), v.DefinitionLevel(), v.Column())
+					}
+					canon = append(canon, x)
+				}
+				k := fmt.Sprintf("%+v", canon)
+				count[k]--
+				if count[k] < 0 && bad == "" {
+					bad = "row not in the inputs (or too often): " + k
+				}
+			}
+		}
+		for k, n := range count {
+			if n > 0 && bad == "" {
+				bad = "row missing from the merge: " + k
+			}
+		}
+		if bad != "" {
+			ctx.Fail("L1", "merge-of-converted-rowgroups-loses-or-alters-rows", bad, det)
+		}
+	}
+}
+
+func c12Cmp(a, b int64) int {
+	switch {
+	case a < b:
+		return -1
+	case a > b:
+		return 1
+	}
+	return 0
+}
+
+func c12OrderText(cols []parquet.SortingColumn) string {
+	var out []string
+	for _, c := range cols {
+		d := " asc"
+		if c.Descending() {
+			d = " desc"
+		}
+		out = append(out, strings.Join(c.Path(), ".")+d)
+	}
+	return strings.Join(out, ", ")
+}
+
+// which sorting columns were dropped: first / middle / last / several
+func c12DropShape(mask, n int) string {
+	var pos []string
+	for i := 0; i < n; i++ {
+		if mask&(1<<i) != 0 {
+			switch {
+			case i == 0:
+				pos = append(pos, "first")
+			case i == n-1:
+				pos = append(pos, "last")
+			default:
+				pos = append(pos, "middle")
+			}
+		}
+	}
+	if len(pos) == 0 {
+		return "dropped-none"
+	}
+	return "dropped-" + strings.Join(pos, "+")
 }
